@@ -62,6 +62,9 @@ enum Op {
     VDonate { who: usize, a: i128 },
     /// probe on a rebuilt copy: 600000 ledgers pass without a call; balances and supply must be the same
     IdleProbe,
+    /// probe on a rebuilt copy: `from` sends 1 token to the token contract's OWN address — a transfer like
+    /// any other: the supply must not move, the contract's balance must grow by 1
+    ToTokenItselfProbe { from: usize },
     Forced { from: usize, to: usize, a: i128 },
     /// RWA: recover the whole balance of `old` to its registered recovery target `new`
     Recover { old: usize, new: usize },
@@ -153,7 +156,7 @@ impl Tok {
             Op::VRedeem { who, recv, a } => ("redeem", (*a, u(*recv), u(*who), u(*who)).into_val(e)),
             Op::VWithdrawBy { op, owner, recv, a } => ("withdraw", (*a, u(*recv), u(*owner), u(*op)).into_val(e)),
             Op::VRedeemBy { op, owner, recv, a } => ("redeem", (*a, u(*recv), u(*owner), u(*op)).into_val(e)),
-            Op::VDonate { .. } | Op::IdleProbe => return None,
+            Op::VDonate { .. } | Op::IdleProbe | Op::ToTokenItselfProbe { .. } => return None,
         })
     }
 
@@ -162,7 +165,7 @@ impl Tok {
             let asset = i.asset.as_ref().expect("vault flavour");
             return call_mocked(&i.e, asset, "transfer", (i.u[*who].clone(), i.c.clone(), *a).into_val(&i.e)).is_ok();
         }
-        if matches!(op, Op::IdleProbe) {
+        if matches!(op, Op::IdleProbe | Op::ToTokenItselfProbe { .. }) {
             return false;
         }
         let (f, args) = self.call(i, op).expect("op not available in flavour");
@@ -350,6 +353,14 @@ impl World for Tok {
         };
         let vault = matches!(self.flavour, Flavour::Vault(_));
         v.push(Op::IdleProbe);
+        if self.flavour != Flavour::Rwa {
+            for from in 0..N {
+                if o.bal[from] > 0 {
+                    v.push(Op::ToTokenItselfProbe { from });
+                    break;
+                }
+            }
+        }
         if matches!(self.flavour, Flavour::Base | Flavour::Votes | Flavour::Rwa) {
             for to in 0..N {
                 for a in dedup(vec![-1, 0, 1, 2, room, room.saturating_add(1), i128::MAX]) {
@@ -463,6 +474,7 @@ impl World for Tok {
             Op::VRedeemBy { .. } => "vault.redeem(operator)",
             Op::VDonate { .. } => "vault.donation",
             Op::IdleProbe => "idle-probe",
+            Op::ToTokenItselfProbe { .. } => "transfer-to-the-token-contract-itself",
             Op::Forced { .. } => "rwa.forced_transfer",
             Op::Recover { .. } => "rwa.recover_balance",
         }
@@ -488,6 +500,30 @@ impl World for Tok {
                 o.supply
             );
             cx.stats.count("idle-probes", 1);
+            return Ok(false);
+        }
+        if let Op::ToTokenItselfProbe { from } = op {
+            let copy = cx.rebuild();
+            let e = &copy.e;
+            let bal = |who: &Address| view(e, &copy.c, "balance", (who.clone(),).into_val(e)).map(|v| i128_of(e, v)).map_err(|x| Violation::new("getter", format!("balance: {x:?}")));
+            let own0 = bal(&copy.c)?;
+            let ok = call_mocked(e, &copy.c, "transfer", (copy.u[*from].clone(), copy.c.clone(), 1i128).into_val(e)).is_ok();
+            if ok {
+                let o = self.observe(&copy)?;
+                let own1 = bal(&copy.c)?;
+                ensure!(o.supply == m.obs.supply, "supply-delta", "a transfer of 1 from {} to the token contract's own address changed the supply {} -> {}", NAMES[*from], m.obs.supply, o.supply);
+                ensure!(
+                    o.bal[*from] == m.obs.bal[*from] - 1 && own1 == own0 + 1,
+                    "exact-delta",
+                    "a transfer of 1 from {} to the token contract's own address: sender {} -> {}, the contract's own balance {} -> {}",
+                    NAMES[*from],
+                    m.obs.bal[*from],
+                    o.bal[*from],
+                    own0,
+                    own1
+                );
+                cx.stats.count("transfers to the token contract itself accepted", 1);
+            }
             return Ok(false);
         }
         let pre = m.obs.clone();
@@ -516,7 +552,7 @@ impl World for Tok {
             Op::Mint { a, .. } | Op::Transfer { a, .. } | Op::Approve { a, .. } | Op::TransferFrom { a, .. } | Op::Burn { a, .. } | Op::BurnFrom { a, .. } => *a,
             Op::VDeposit { a, .. } | Op::VMint { a, .. } | Op::VWithdraw { a, .. } | Op::VRedeem { a, .. } | Op::Forced { a, .. } => *a,
             Op::VWithdrawBy { a, .. } | Op::VRedeemBy { a, .. } | Op::VDonate { a, .. } => *a,
-            Op::IdleProbe => 0,
+            Op::IdleProbe | Op::ToTokenItselfProbe { .. } => 0,
             Op::Recover { .. } => 0,
         };
         ensure!(amount_of(op) >= 0, "negative-amount-accepted", "{:?} succeeded with a negative amount", op);
@@ -555,7 +591,7 @@ impl World for Tok {
             Op::VDonate { .. } => {
                 ensure!(evs.is_empty(), "events", "a donation of assets made the vault emit share events {:?}", evs);
             }
-            Op::IdleProbe => unreachable!(),
+            Op::IdleProbe | Op::ToTokenItselfProbe { .. } => unreachable!(),
         }
         if let Some((f, t)) = vault_move {
             // the share amount is decided by the vault (C05); here: exactly one deposit/withdraw
@@ -628,7 +664,7 @@ fn main() {
                     &["mint", "transfer", "approve", "transfer_from", "burn", "burn_from", "vault.deposit", "vault.mint", "vault.withdraw", "vault.redeem", "vault.withdraw(operator)", "vault.redeem(operator)", "vault.donation", "rwa.forced_transfer", "rwa.recover_balance"],
                     &["mint", "transfer", "approve", "transfer_from", "burn", "burn_from", "vault.deposit", "vault.withdraw", "vault.redeem", "vault.withdraw(operator)", "vault.redeem(operator)", "vault.donation"],
                 );
-                rep.require_counter(&["idle-probes"]);
+                rep.require_counter(&["idle-probes", "transfers to the token contract itself accepted"]);
             }
         },
     );
